@@ -318,7 +318,9 @@ Definition step_sim_statement : Prop :=
     (forall q p, procs c !! q = Some p -> wfb (pr_body0 p)) ->
     (forall q p, procs c' !! q = Some p -> wfb (pr_body0 p)) ->
     cfg_sim c c' -> nsres (Runtime.step md D F c ch) = nsres (Runtime.step md D F c' ch).
-(* Proved above: the cases in which an identifier could be captured or could clash — instantiating
+(* CLOSED for typed configurations in proofs/RenameSimT.v (`stepT_erase`, `stepT_sim`, with the erasure
+   extended to `self` names and the invariants taken from the run-time typing).
+   Proved above: the cases in which an identifier could be captured or could clash — instantiating
    binders from a received message (`on_message_sim`: receive, case, shift, wait, positive forward,
    negative forward request), instantiating a callee (`call_body_sim`), cut / call / print
    (`internal_effect_sim`), and the choice of the next action (`action_of_sim`).  What is missing for
